@@ -237,6 +237,7 @@ func New(cfg *Config) (*World, error) {
 		w.Store.Retain = cfg.RetainStore
 		w.Cache = env.NewCache(cfg.Cache)
 		root := mast.NewRoot(cfg.CreateOptions())
+		root.Height = cfg.StartHeight
 		m, err := root.LoadMast(ctx, w.RemoteConfig(w.Store, true))
 		if err != nil {
 			return nil, fmt.Errorf("fresh LoadMast: %w", err)
